@@ -38,6 +38,8 @@ import (
 
 func instructionsNow() int64 { return atomic.LoadInt64(&bytecode.InstructionsExecuted) }
 
+const progStepBudget = int64(3_000_000)
+
 // diagObs is what the monitor saw of the diagnostics machinery itself (evidence
 // that the mode was really on).
 type diagObs struct {
@@ -145,7 +147,10 @@ func guarded(fn func() egorun.Result) egorun.Result {
 	start := instructionsNow()
 	hits0 := bytecode.VerifBudgetHits.Load()
 
-	bytecode.VerifStepLimit.Store(start + stepBudget)
+	// generated and directed programs execute a few thousand to a few hundred thousand
+	// instructions; three million is a generous logical bound that still makes a
+	// configuration that sends a program into an endless loop cheap to observe
+	bytecode.VerifStepLimit.Store(start + progStepBudget)
 
 	res := fn()
 
